@@ -50,7 +50,25 @@ func genC14Requests(r *rand.Rand, cc *checkCase, n int) []*c14Req {
 	}
 	for i := 0; i < n; i++ {
 		t := pool[r.IntN(len(pool))]
-		switch r.IntN(9) {
+		switch r.IntN(11) {
+		case 9:
+			// requests that are REFUSED: the refusal belongs to the request as well
+			// (every client its own malformed page token / unknown namespace)
+			switch r.IntN(3) {
+			case 0:
+				q := url.Values{"namespace": {t.Namespace}, "page_token": {fmt.Sprintf("not-a-token-%d", i)}}
+				reqs = append(reqs, &c14Req{Kind: "rest-list", Target: "/relation-tuples?" + q.Encode()})
+			case 1:
+				reqs = append(reqs, &c14Req{Kind: "grpc-list", Tuple: t, Body: fmt.Sprintf("bad-token-%d", i)})
+			default:
+				v := tupleQuery(t)
+				v.Set("namespace", fmt.Sprintf("nope%d", i))
+				reqs = append(reqs, &c14Req{Kind: "rest-check", Target: "/relation-tuples/check/openapi?" + v.Encode()})
+			}
+		case 10:
+			// a 36-character token that is not a UUID, the same for several clients
+			q := url.Values{"namespace": {t.Namespace}, "page_token": {"zzzzzzzz-zzzz-zzzz-zzzz-zzzzzzzzzzzz"}, "page_size": {fmt.Sprint(1 + r.IntN(3))}}
+			reqs = append(reqs, &c14Req{Kind: "rest-list", Target: "/relation-tuples?" + q.Encode()})
 		case 0, 1:
 			v := tupleQuery(t)
 			if d := r.IntN(5); d > 0 {
@@ -128,7 +146,7 @@ func c14Exec(ctx context.Context, env *Env, read http.Handler, g *grpcClients, q
 	case "grpc-list":
 		c, cancel := context.WithTimeout(ctx, 30*time.Second)
 		defer cancel()
-		resp, err := g.Read.ListRelationTuples(c, &rts.ListRelationTuplesRequest{RelationQuery: &rts.RelationQuery{Namespace: &q.Tuple.Namespace, Relation: &q.Tuple.Relation}, PageSize: 3})
+		resp, err := g.Read.ListRelationTuples(c, &rts.ListRelationTuplesRequest{RelationQuery: &rts.RelationQuery{Namespace: &q.Tuple.Namespace, Relation: &q.Tuple.Relation}, PageSize: 3, PageToken: q.Body})
 		if err != nil {
 			return "ERR " + err.Error()
 		}
